@@ -48,7 +48,10 @@ class G:
         r = self.r
         c = r.random()
         if d > 2 or c < 0.35:
-            return r.choice(["a", "n7", "1", "2", "0", "42", "-3", "items|length", "s|length"] + (["loop.index", "loop.index0", "loop.length"] if self.loop_depth else []))
+            return r.choice(["a", "n7", "1", "2", "0", "42", "-3", "items|length", "s|length",
+                             # attribute chains with several integer subscripts in a row, next to number literals of every form
+                             "grid.0.1", "grid.1.0", "grid.1.1", "cube.0.1.0", "cube.1.0.1", "grid.0.1 + 1", "(grid.1.0)", "grid[0][1]", "grid.0[1]", "1_0" if False else "10",
+                             "(2.5)|int", "(1.0 + 0.5)|round|int", "(0.1 + grid.0.1)|int"] + (["loop.index", "loop.index0", "loop.length"] if self.loop_depth else []))
         if c < 0.6:
             return "(%s %s %s)" % (self.e_int(d + 1), r.choice(["+", "-", "*"]), self.e_int(d + 1))
         if c < 0.7:
@@ -241,7 +244,8 @@ def context(r):
     return dict(a=r.choice([0, 1, 5, -3]), n7=7, b=r.choice(["x", "Hello World", " pad ", ""]), items=r.choice([[], [1, 2, 3], ["q", "r"]]),
                 ints=r.choice([[1], [3, 1, 2], [5, 5, 0, -1]]), strs=r.choice([["q"], ["b", "a", "q"], ["", "zz"]]),
                 s=r.choice(["line1\nline2", "t\r\nu", "", "one"]), ml="first\n  second\n\nfourth\n", n=r.choice([None, 7]), flag=r.choice([True, False]),
-                tree=[dict(n="r", c=[dict(n="k1", c=[]), dict(n="k2", c=[dict(n="g", c=[])])]), dict(n="s", c=[])])
+                tree=[dict(n="r", c=[dict(n="k1", c=[]), dict(n="k2", c=[dict(n="g", c=[])])]), dict(n="s", c=[])],
+                grid=[[1, 2], [3, 4]], cube=[[[5, 6], [7, 8]], [[9, 10], [11, 12]]])
 
 
 def env_options(r):
